@@ -125,8 +125,85 @@ class ScriptedRandom(object):
         lst[:] = [orig[p] for p in perm]
         self.shuffles.append(picks)
 
-    def __getattr__(self, name):       # anything else (kernel draws): not scripted
-        raise RuntimeError("unscripted random method " + name)
+    # the kernel's own draws are not scripted; they are observed at the level of _step (see StepLog)
+    def choice(self, seq):
+        return self.rng.choice(seq)
+
+    def randint(self, a, b):
+        return self.rng.randint(a, b)
+
+    def random(self):
+        return self.rng.random()
+
+    def getrandbits(self, k):
+        return self.rng.getrandbits(k)
+
+
+class StepLog(object):
+    """Observe every call of python_kernel._step from outside: the source vertex (random.choice), the
+    destination chip handed to _get_candidate_swap (None when the step gave up before, i.e. the drawn chip
+    is dead) and whether the swap was kept."""
+
+    def __init__(self):
+        self.steps = []
+        self.kernel = None
+        self.orig_step = python_kernel._step
+        self.orig_gcs = python_kernel._get_candidate_swap
+        self.orig_asc = sa_algorithm.apply_same_chip_constraints
+        self.subs = []
+        self.cur = None
+
+    def install(self):
+        log = self
+
+        def gcs(resources, location, *a, **k):
+            log.cur["dst"] = list(location)
+            return log.orig_gcs(resources, location, *a, **k)
+
+        def step(vertices, d_limit, temperature, placements, l2v, v2n, vertices_resources, fixed_vertices,
+                 machine, has_wrap_around_links, random):
+            log.cur = dict(src=None, dst=None)
+            rec = ChoiceSpy(random, log.cur)
+            swapped, delta = log.orig_step(vertices, d_limit, temperature, placements, l2v, v2n,
+                                           vertices_resources, fixed_vertices, machine,
+                                           has_wrap_around_links, rec)
+            if len(log.steps) < log.limit:
+                log.steps.append([log.cur["src"], log.cur["dst"], bool(swapped)])
+                log.snapshot = (dict(placements), dict((xy, dict(machine[xy])) for xy in machine),
+                                dict((xy, list(vs)) for xy, vs in l2v.items()))
+            return swapped, delta
+        def asc(*a, **k):
+            res = log.orig_asc(*a, **k)
+            log.subs = list(res[3])
+            return res
+        python_kernel._step = step
+        python_kernel._get_candidate_swap = gcs
+        sa_algorithm.apply_same_chip_constraints = asc
+
+    def uninstall(self):
+        python_kernel._step = self.orig_step
+        python_kernel._get_candidate_swap = self.orig_gcs
+        sa_algorithm.apply_same_chip_constraints = self.orig_asc
+
+    def vid(self, v):
+        """The model's name of a vertex: the k-th MergedVertex created is -(k+1)."""
+        for k, mv in enumerate(self.subs):
+            if v is mv:
+                return -(k + 1)
+        return v
+
+
+class ChoiceSpy(object):
+    def __init__(self, random, cur):
+        self._r, self._cur = random, cur
+
+    def choice(self, seq):
+        v = self._r.choice(seq)
+        self._cur["src"] = v
+        return v
+
+    def __getattr__(self, name):
+        return getattr(self._r, name)
 
 
 def outcome(fn):
@@ -218,6 +295,28 @@ def run_case(c, per_cfg_s):
     out["sa_initial"] = guarded(lambda: sa_algorithm.place(
         vr, nets, m, cs, effort=0.0, random=sr, kernel=PythonKernel), per_cfg_s)
     aux["sa_shuffles"] = sr.shuffles
+    # 10 simulated annealing, Python kernel, scripted shuffles, every _step observed (model replay)
+    if c.get("sa_steps"):
+        vr, nets, m, cs = fresh()
+        sr = ScriptedRandom(c["seed"] + 2)
+        log = StepLog()
+        log.limit = c["sa_steps"]
+        log.snapshot = None
+        log.install()
+        try:
+            out["sa_logged"] = guarded(lambda: sa_algorithm.place(
+                vr, nets, m, cs, effort=c["effort"], random=sr, kernel=PythonKernel,
+                kernel_kwargs=dict(no_warn=True)), per_cfg_s)
+        finally:
+            log.uninstall()
+        aux["sal_shuffles"] = sr.shuffles
+        aux["sal_steps"] = [[log.vid(a), b, c_] for a, b, c_ in log.steps]
+        if log.snapshot is not None:
+            pl, mach, l2v = log.snapshot
+            aux["sal_state"] = dict(
+                placements=[[log.vid(v), list(xy)] for v, xy in pl.items()],
+                machine=[[list(xy), sorted([r, q] for r, q in d.items())] for xy, d in sorted(mach.items())],
+                l2v=[[list(xy), [log.vid(v) for v in vs]] for xy, vs in sorted(l2v.items())])
     return dict(out=out, aux=aux)
 
 
